@@ -241,6 +241,7 @@ TraceSpec == TraceInit /\ [][TraceNext]_tvars
 TraceMisc == 0..1500      \* cfg files cannot spell a range
 NotAccepted == l <= N
 \* progress register for diagnosing a rejection (needs -workers 1): prints the highest line index reached
+ASSUME N > 0      \* a missing or empty recording must never count as an accepted one
 ASSUME TLCSet(1, 0)
 Progress == IF TLCGet(1) < l THEN TLCSet(1, l) /\ PrintT(<<"@@L", l>>) ELSE TRUE
 =============================================================================
